@@ -214,6 +214,7 @@ CORPUS = [
     {"grammar": "Model: a=A 'x';\nA: &'x';\n", "opts": {}, "inputs": ["x", "y"], "tag": "corpus-predicate-root"},
     {"grammar": "Model: 'm' items+=Item;\nItem: name=ID;\nComment: /\\/\\*.*?\\*\\//;\n", "opts": {}, "inputs": ["m a /*c*/ /*d*/b", "m/**/a", "m a /*"], "tag": "corpus-comment-regex"},
     {"grammar": "Model: 'm' items+=Item;\nItem: name=ID;\nComment: /\\/\\*.*?\\*\\//;\n", "opts": {"skipws": False}, "inputs": ["ma/*c*/b", "mab"], "tag": "corpus-comment-noskipws"},
+    {"grammar": "Model: 'm' ('a' 'b' x=INT)#;\n", "opts": {}, "inputs": ["m b 3 a", "m a b", "m 1 a b", "m a 1 b a"], "tag": "corpus-unordered"},
     {"grammar": "Model: objs+=O; O: 'o' name=ID ('{' kids+=O '}')?;\nComment: /\\/\\/.*?$/;\n", "opts": {},
      "inputs": ["o a { o b // c\n o c {o d} }\n\n  o e", "// x\no a{}", "o a {\r\n o b }"], "tag": "corpus-nested-comment"},
 ]
